@@ -250,9 +250,13 @@ def _smooth_ranking(rc: RuleCtx):
         fr = Frame(ev, fi, 0)
         fr.block(pre, env, TRUE)
         x, y = pts.items
-        i = ev.symbol(loop.target.id)
+        from .common import bind_loop
+        b_ = bind_loop(ev, fr, loop, env)
+        if b_ is None:
+            raise AnalysisError("knee_ranking.smooth_ranking: loop header has no recognised shape")
+        i = b_.idx
         benv = dict(env)
-        benv[loop.target.id] = i
+        benv.update(b_.bindings)
         for n, v in list(benv.items()):
             if isinstance(v, Vec) and v.kind == "list":
                 benv[n] = ev.symbol(n + "@list")
@@ -278,8 +282,7 @@ def _smooth_ranking(rc: RuleCtx):
             and fit_e[0].guard.kind == "true" and w_e[0].guard.kind == "true"
         apps = {"fit": fit_e[0] if fit_e else None, "weights": w_e[0] if w_e else None}
         fname_, wname_ = (fit_e[0].target if fit_e else "fit"), (w_e[0].target if w_e else "weights")
-        ra = range_args(loop)
-        rng_ok = ra is not None and isinstance(fr.expr(ra[-1], env), Rat) and fr.expr(ra[-1], env).equals(sym("K"))
+        rng_ok = b_.visits(0, sym("K"))
         # tail: weights normalised by their sum when non-zero; rankings = fit * weights
         ev.len_map.update({"fit!": sym("K"), "weights!": sym("K")})
         fr2 = Frame(ev, fi, 0)
